@@ -61,7 +61,9 @@ NUMS_ODD = ['1.5', '0.5', '.5', '1.', '0.', '1e3', '1E3', '1e+3', '1e-3', '1.5e1
 STRS_COMMON = ['"s"', "'s'", '""', "''", '"a b"', "'use strict'"]
 STRS_ODD = ['"\\n"', "'\\''", '"\\""', '"\\\\"', "'\\x41'", '"\\u0041"', "'\\0'", '"\\07"', "'\\101'",
             '"a\\\nb"', "'a\\\r\nb'", '"a\\\rb"', u'"a\\ b"', u'"\u00e9"', u'"\u65e5\u672c"', '"//"', "'/*'", '"*/"',
-            '"\'"', "'\"'", '"\\b\\f\\r\\t\\v"', "'</script>'", '"\\a\\q"', '"a\\\n"', "';'", '"}"', "'{'", u'"a\\\u2028b"', u"'\\\u2029'"]
+            '"\'"', "'\"'", '"\\b\\f\\r\\t\\v"', "'</script>'", '"\\a\\q"', '"a\\\n"', "';'", '"}"', "'{'", u'"a\\\u2028b"', u"'\\\u2029'",
+            # characters that split lines for Python (str.splitlines) but are ordinary characters of an ES5 string
+            '"a\\tb\x0cc"', "'\x0b\\\\'", u'"\x85\\n"', '"p\x1cq\x1dr\\x41"', '"\x0c"']
 REGEX_COMMON = ['/re/', '/a/g', '/x/i']
 REGEX_ODD = ['/[/]/', '/\\//', '/[\\]]/', '/a/gim', '/=/', '/=a/', '/ /', '/\\\\/', '/[a-z]+/', '/(?:x)/',
              '/a|b/', '/\\d{2,3}/', '/[^/]*/g', "/'/", '/"/', '/a*/', '/\\*/', '/.+?/']
@@ -654,8 +656,10 @@ WS_VARIED = [' ', '  ', '\t', ' \t ', '\x0b', '\x0c', u'\xa0', u'\ufeff', u'\u20
 LT_BASIC = ['\n']
 LT_ALL = ['\n', '\r', '\r\n', u'\u2028', u'\u2029', '\n\n', ' \n  ', u'\u2028\n']
 LT_NO_LSPS = ['\n', '\r', '\r\n', '\n\n', ' \n  ', '\r\n\t']
-COMMENTS_INLINE = ['/*c*/', '/**/', '/* a * b / */', u'/*\u00e9*/', '/*//*/', '/* t */', '/*\t*/', '/* */']
-COMMENTS_ML = ['/*c\nc*/', '/*\n*/', '/*\r\n * x\r\n */', u'/*a\u2028b*/', u'/*\u2029*/', '/*\r*/']
+COMMENTS_INLINE = ['/*c*/', '/**/', '/* a * b / */', u'/*\u00e9*/', '/*//*/', '/* t */', '/*\t*/', '/* */',
+                   '/*a\x0cb*/', u'/*\x0b\x85*/']
+COMMENTS_ML = ['/*c\nc*/', '/*\n*/', '/*\r\n * x\r\n */', u'/*a\u2028b*/', u'/*\u2029*/', '/*\r*/', '/*a\rb*/',
+               '/*\n * a\n * b\n * c\n */', '/*\x0c\n\x0b*/']
 COMMENTS_LINE = ['//c\n', '//\n', '// a /* b\n', u'//\u00e9\r\n', '//x\r', u'//c\u2028', u'// d\u2029',
                  '// t  \n', '//\t\n', '// \n', u'//u\u00a0\n', '//v \t\r\n', '//  lead\n']
 
